@@ -33,7 +33,7 @@ XTAL = {"NaCl": ("NaCl-prim-2", [[2, 0, 0], [0, 1, 0], [0, 0, 1]]), "wz": ("wurt
         "NaClS": ("NaCl-prim-2", [[2, 0, 0], [0, 1, 0], [0, 0, 1]], None, {"frequency_scale_factor": 1.1})}
 NACNAME = {"NaCl-conv-8-interleaved": "NaCl-prim-2"}
 
-OPS = ["fcA", "fcB", "fcAc", "fcV", "dsD1", "dsD2", "prodF", "prodC", "gen", "genT", "sym1", "symsg", "cut", "nacN", "nacW", "nacG", "nacG2", "nacE",
+OPS = ["fcA", "fcB", "fcAc", "fcV", "dsD1", "dsD2", "dispU", "prodF", "prodC", "gen", "genT", "sym1", "symsg", "cut", "nacN", "nacW", "nacG", "nacG2", "nacE",
        "m0", "m1", "copy", "setF", "qQ", "qQd", "qM", "qMT", "qB"]
 QUERIES = ("qQ", "qQd", "qM", "qMT", "qB")
 # (root history, depth) per system: searching from non-initial states reaches longer histories at the same cost
@@ -179,6 +179,8 @@ class Run:
                 continue
             if op == "nacE" and ph.nac_params is None:
                 continue
+            if op == "dispU" and ds is not None and "first_atoms" in ds:
+                continue  # phonopy refuses to mix the two dataset types (by design)
             if op == "symsg" and has_fc and ph.force_constants.shape[0] != ph.force_constants.shape[1]:
                 continue  # space-group symmetriser is defined for the full layout only
             if op in ("prodF", "prodC") and not has_forces:
@@ -221,6 +223,11 @@ class Run:
         elif op == "gen":
             phx.quiet(ph.generate_displacements, distance=0.02)
             _ = ph.supercells_with_displacements
+        elif op == "dispU":
+            # type-2 displacements assigned through the displacements setter (after the displaced cells may have been read)
+            g = np.random.default_rng(9 + len(self.inputs))
+            U_ = 0.02 * g.normal(size=(2, len(ph.supercell), 3))
+            ph.displacements = self.give("displacements", U_)
         elif op == "genT":
             # finite-temperature random displacements from the CURRENT phonons (fixed seed: a fresh object gives the same ones)
             phx.quiet(ph.generate_displacements, number_of_snapshots=2, temperature=300.0, random_seed=7, cutoff_frequency=0.01)
@@ -249,7 +256,9 @@ class Run:
             self.origins.append(ph)
             self.ph = phx.quiet(ph.copy)
         elif op == "qQ":
-            ph.run_qpoints(QS[:2], with_eigenvectors=True, with_group_velocities=True)
+            # the caller's own float array, one point outside [-1/2, 1/2]
+            qin = self.give("qpoints", np.array([[0.0, 0, 0], [0.1, 0.2, 0.3], [0.7, 0.2, -0.6]]))
+            ph.run_qpoints(qin, with_eigenvectors=True, with_group_velocities=True)
         elif op == "qQd":
             # a query with a symmetry-breaking direction (it may leave the direction behind)
             ph.run_qpoints(QS, with_group_velocities=True, nac_q_direction=[1.0, 0.0, 0.0])
@@ -451,6 +460,17 @@ def run_history(system, seed, hist, check=True):
     # (v) displaced supercells handed out agree with the current dataset (reading them builds a cache)
     try:
         ds = ph.dataset
+        if ds is not None and "displacements" in ds:
+            scs = ph.supercells_with_displacements
+            base = ph.supercell.positions
+            U2 = np.asarray(ds["displacements"])
+            if scs is None or len(scs) != len(U2):
+                fail("stale/supercells_with_displacements", "number of displaced supercells %s != number of displacement sets %d" % (None if scs is None else len(scs), len(U2)))
+            else:
+                for sc_, u_ in zip(scs, U2):
+                    if np.abs((sc_.positions - base) - u_).max() > 1e-9:
+                        fail("stale/supercells_with_displacements", "displaced supercell does not match the current (type-2) displacements (max dev %.3g)" % np.abs((sc_.positions - base) - u_).max())
+                        break
         if ds is not None and "first_atoms" in ds:
             scs = ph.supercells_with_displacements
             base = ph.supercell.positions
